@@ -25,10 +25,10 @@ ASSUMPTIONS = [
     "sgio stub follows cython-sgio: CHECK CONDITION with sense -> CheckConditionError(sense[:max_sense_data_length]); any other non-GOOD outcome -> UnspecifiedError",
     "iscsi stub exposes Task.status and Task.raw_sense as iscsi_device.py uses them",
     "on SG_IO a non-GOOD, non-CHECK-CONDITION status is only required to raise *some* exception (the binding does not tell the library the byte)",
-    "sense payloads in this check are current fixed (70h) and descriptor (72h) format; the other formats are C08's",
+    "sense payloads in this check are fixed and descriptor format, current (70h/72h) and - one in eight - deferred (71h/73h); unknown response codes are C08's",
 ]
 ALSO_OPTIMIZED = True      # the whole check is repeated under `python -O` (a status guard written as an assert vanishes there)
-REQUIRED_PROBES = ["status", "cc_raised_ok", "named_status_ok", "command_object_reused", "call_inside_with"]
+REQUIRED_PROBES = ["status", "cc_raised_ok", "named_status_ok", "command_object_reused", "call_inside_with", "reattach_judged"]
 
 NO_DECODE = {"testunitready", "write10", "write12", "write16", "writesame10", "synchronizecache10", "synchronizecache16",
              "preventallowmediumremoval", "movemedium", "positiontoelement", "initializeelementstatus", "read10", "read12", "read16"}
@@ -50,9 +50,12 @@ def gen_sense(rng):
         asc, ascq = rng.choice(sorted(S.ASC_TEXT))
     else:
         asc, ascq = rng.randrange(256), rng.randrange(256)
+    # mostly current errors (70h/72h); a deferred error (71h/73h) is a CHECK CONDITION like any other: the command was not executed
+    deferred = rng.random() < 0.12
     if rng.random() < 0.6:
-        return S.fixed(key, asc, ascq, valid=rng.randrange(2), info=rng.randrange(1 << 32), length=rng.choice([18, 18, 20, 32, 64, 96, 252, 14, 14, 13, 15, 17]))
-    return S.descriptor(key, asc, ascq, length=rng.choice([8, 8, 12, 20, 32, 60]))
+        return S.fixed(key, asc, ascq, valid=rng.randrange(2), info=rng.randrange(1 << 32), length=rng.choice([18, 18, 20, 32, 64, 96, 252, 14, 14, 13, 15, 17]),
+                       response_code=0x71 if deferred else 0x70)
+    return S.descriptor(key, asc, ascq, length=rng.choice([8, 8, 12, 20, 32, 60]), response_code=0x73 if deferred else 0x72)
 
 
 def gen_fault(rng):
@@ -78,7 +81,10 @@ def gen_op(rng, cfg, p_fault):
     kind = cfg["kind"]
     r = rng.random()
     op = {"transport": rng.choice(TRANSPORTS)}
-    if r < 0.3:
+    if r < 0.05:
+        # the facade is pointed at its device again (s(dev)): the identifying INQUIRY is a command like any other
+        op.update(via="reattach", m="inquiry", raw=False, args=[], kw={})
+    elif r < 0.3:
         op.update(via="direct", m=rng.choice(["testunitready", "inquiry", "reportluns"]), raw=rng.random() < 0.5)
         op.update(args=[], kw={})
         if rng.random() < 0.35:
@@ -335,7 +341,10 @@ def execute(prog):
             WORLD.arm(op["fault2"])
         mark = len(WORLD.deliveries)
         cmd = None
-        if op["via"] == "direct":
+        if op["via"] == "reattach":
+            WORLD.probe("reattach_judged")
+            call = lambda: scsi(dev)
+        elif op["via"] == "direct":
             prev = last_direct.get(t)
             if op.get("reuse") and prev is not None and prev[0] == op["m"]:
                 cmd = prev[1]
